@@ -115,8 +115,11 @@ CalcChunkSize(size, chunk, launched, onCaller, minChunk, g, maxDyn) ==
            IN  [err |-> r.err, cs |-> r.cs, n |-> (size + r.cs - 1) \div r.cs]
       ELSE [err |-> FALSE, cs |-> chunk, n |-> (size + chunk - 1) \div chunk]
 
-\* detail::adjustChunkSizing
-AdjustChunkSizing(size, maxThreads0, isStatic0, isAuto, isStaticRange, minItems, N, wait) ==
+\* detail::adjustChunkSizing.  `clamp`: in the branch for tiny explicit-chunk ranges the code assigns
+\* maxThreads = size - wait; a repair of C48 (maxThreads bounds the concurrency) makes that
+\* min(maxThreads, size - wait).  The worker count of that branch is irrelevant to C12/C13/C17, so
+\* the specification allows both (clamp = FALSE / TRUE) and the properties are checked for both.
+AdjustChunkSizing(size, maxThreads0, isStatic0, isAuto, isStaticRange, minItems, N, wait, clamp) ==
   LET w   == IF wait THEN 1 ELSE 0
       mt1 == Min(maxThreads0, N + 1)
   IN  IF minItems > 1
@@ -127,7 +130,8 @@ AdjustChunkSizing(size, maxThreads0, isStatic0, isAuto, isStaticRange, minItems,
                              THEN TRUE ELSE isStatic0]
       ELSE IF size <= N + w
       THEN (IF isAuto THEN [maxThreads |-> mt1, isStatic |-> TRUE]
-            ELSE IF ~isStaticRange THEN [maxThreads |-> size - w, isStatic |-> isStatic0]
+            ELSE IF ~isStaticRange
+            THEN [maxThreads |-> IF clamp THEN Min(mt1, size - w) ELSE size - w, isStatic |-> isStatic0]
             ELSE [maxThreads |-> mt1, isStatic |-> isStatic0])
       ELSE [maxThreads |-> mt1, isStatic |-> isStatic0]
 
